@@ -4,7 +4,7 @@ From DV Require Import Base.Prelude Model.NameM Model.ZoneTextM.
 From DV Require Import Proofs.ZoneTextBase Proofs.ZoneTextInv Proofs.ZoneTextRespell Proofs.ZoneTextLex
   Proofs.ZoneTextAcc Proofs.ZoneTextRecord Proofs.ZoneTextSweep Proofs.ZoneTextRoundtrip Proofs.ZoneTextNames
   Proofs.ZoneTextParens Proofs.ZoneTextRead Proofs.ZoneTextGenerate Proofs.ZoneTextWf
-  Proofs.ZoneTextRdata Proofs.ZoneTextStruct Proofs.ZoneTextFuel.
+  Proofs.ZoneTextRdata Proofs.ZoneTextStruct Proofs.ZoneTextFuel Proofs.ZoneTextTtl.
 From DV Require Import Proofs.NameValid Proofs.NameText.
 From Coq Require Import Permutation.
 Open Scope Z_scope.
@@ -82,8 +82,26 @@ Theorem quoted_string_roundtrip : forall x, Forall is_octet x ->
 Proof. intros x H. split; [apply unescape_escapify|apply escapify_q_clean]; exact H. Qed.
 Print Assumptions quoted_string_roundtrip.
 
-(* WRITE THEN READ, all hypotheses structural.  For zones over the modelled field-list types and
-   the default name style (names printed as stored): every zone with pairwise different valid
+(* ... and for RRSIG records (covered type printed as its mnemonic) and for unknown types in the
+   RFC 3597 form with non-empty data (lower-case hex). *)
+Theorem rdata_roundtrip_rrsig : forall (c : cfg) (st : style) (zo : name),
+  Valid zo /\ AllBytes zo /\ is_absolute zo = true -> st_origin st = None ->
+  forall cov rest,
+  0 <= cov <= 65535 -> rdata_fits (c_rel c) zo rrsig_tail rest ->
+  rdata_ok c st zo tRRSIG (VInt cov :: rest) (TId (type_to_text cov) :: rd_toks rest).
+Proof. exact rdata_ok_rrsig_proof. Qed.
+Print Assumptions rdata_roundtrip_rrsig.
+
+Theorem rdata_roundtrip_generic : forall (c : cfg) (st : style) (zo : name),
+  st_origin st = None ->
+  forall ty n h,
+  tbl_by_code type_table ty = None -> 0 < n -> hex_lower h = true -> zlen h = 2 * n ->
+  rdata_ok c st zo ty [VTok [92; 35]; VInt n; VRest [h]] [TId [92; 35]; TId (dec n); TId h].
+Proof. exact rdata_ok_generic_proof. Qed.
+Print Assumptions rdata_roundtrip_generic.
+
+(* WRITE THEN READ, all hypotheses structural.  For zones over the modelled types (field-list types,
+   RRSIG, unknown types in RFC 3597 form) and the default name style (names printed as stored): every zone with pairwise different valid
    owner names stored in the zone's form (relative under the origin / absolute inside it),
    non-empty nodes and rdatasets, one rdataset per type, no duplicate records, singleton types
    holding one record, SOA at the origin only, CNAME not mixed with other data and in-range fields
@@ -128,6 +146,13 @@ Theorem ttl_text_roundtrip : forall n, 0 <= n <= MAX_TTL -> ttl_from_text (dec n
 Proof. exact ttl_from_text_dec. Qed.
 Print Assumptions ttl_text_roundtrip.
 
+(* TTLs written with BIND units, in any letter case ("1w2D3h4m5s"), read as the sum of their parts. *)
+Theorem ttl_units_text : forall l,
+  l <> [] -> units_ok l -> 0 <= units_value l <= MAX_TTL ->
+  ttl_from_text (units_text l) = Ok (units_value l).
+Proof. exact ttl_units_text_proof. Qed.
+Print Assumptions ttl_units_text.
+
 (* After a successful load no node holds a CNAME (or RRSIG(CNAME)) together with other data -
    for every input text and every reader configuration. *)
 Theorem cname_exclusive_after_load : forall c text o z,
@@ -151,6 +176,15 @@ Theorem outside_origin_ignored : forall c s co zo ov n toks,
   rr_line c s false (TId ov :: toks) false = Ok (set_last s n).
 Proof. exact outside_origin_line_proof. Qed.
 Print Assumptions outside_origin_ignored.
+
+(* ... likewise for dns.zonefile.read_rrsets (the list of rrsets is untouched). *)
+Theorem outside_origin_ignored_rrsets : forall c zo s ov n toks,
+  as_name true ov (Some zo) false None = Ok n ->
+  is_subdomain n zo = false ->
+  rrs_line c zo s false (TId ov :: toks) false =
+  Ok (mkrr (Some n) (rr_lttl s) (rr_lttl_known s) (rr_dttl s) (rr_dttl_known s) (rr_store s)).
+Proof. exact rrsets_outside_origin_proof. Qed.
+Print Assumptions outside_origin_ignored_rrsets.
 
 (* ... and `last_name` does not influence a following line that spells its owner. *)
 Theorem outside_origin_then_explicit_owner : forall c s m toks lerr t,
@@ -243,19 +277,17 @@ Print Assumptions respell_generate.
 
 (* The reader loop runs on fuel length(text) + 1 (from_text).  That bound is sufficient: every
    logical line consumes at least one character (lex_rest), so any larger fuel gives the same
-   result, and the loop never produces the out-of-fuel marker itself. *)
+   result, and the out-of-fuel marker is unreachable (no line ever produces it either). *)
 Theorem read_loop_fuel_irrelevant : forall c f1 f2 text s,
   (length text < f1)%nat -> (length text < f2)%nat ->
   read_loop f1 c s text = read_loop f2 c s text.
 Proof. exact read_loop_fuel_irrelevant_proof. Qed.
 Print Assumptions read_loop_fuel_irrelevant.
 
-Theorem read_loop_never_starves : forall c f text s,
-  (length text < f)%nat ->
-  read_loop f c s text = Internal iFuelZ ->
-  exists s' lead toks lerr, process_line c s' lead toks lerr = Internal iFuelZ.
-Proof. exact read_loop_never_starves_proof. Qed.
-Print Assumptions read_loop_never_starves.
+Theorem read_loop_fuel_sufficient : forall c f text s,
+  (length text < f)%nat -> read_loop f c s text <> Internal iFuelZ.
+Proof. exact read_loop_fuel_sufficient_proof. Qed.
+Print Assumptions read_loop_fuel_sufficient.
 
 (* ---------- non-vacuity: the hypotheses are satisfiable, the model really loads zones ---------- *)
 Definition ex_origin : name := [[101; 120]; []].   (* "ex." *)
@@ -382,6 +414,8 @@ Ltac cmp := vm_compute; first [reflexivity | exact Logic.I].
 Ltac solve_valid := apply validate_iff; vm_compute; reflexivity.
 Ltac solve_bytes := apply AllBytes_dec; vm_compute; reflexivity.
 
+Ltac rd_fit tac := left; eexists _, _; split; [reflexivity|]; split; [discriminate|]; split; [reflexivity|]; tac.
+
 Example rt_struct : zone_struct rt_cfg ex_origin rt_nodes.
 Proof.
   assert (Vns : Valid ns_ /\ AllBytes ns_) by (split; [solve_valid|solve_bytes]).
@@ -391,47 +425,49 @@ Proof.
   split.
   - repeat (constructor; [solve_forall ltac:(vm_compute; reflexivity)|]). constructor.
   - unfold rt_nodes. apply Forall_cons; [|apply Forall_cons; [|apply Forall_cons; [|apply Forall_nil]]].
-    + (* apex *)
+    + (* apex: SOA, NS *)
       split; [discriminate|]. split.
       { split; [solve_valid|]. split; [solve_bytes|]. split; [reflexivity|solve_valid]. }
       cbn [rdss_struct fst snd].
       split; [constructor|]. split; [cmp|]. split.
-      { eexists _, _. split; [reflexivity|]. split; [discriminate|]. split; [reflexivity|]. split; [discriminate|].
-        split; [split; le_c|]. split; [intros _; reflexivity|]. split; [intros _; eexists; reflexivity|].
+      { split; [split; le_c|]. split; [discriminate|]. split; [split; le_c|].
+        split; [intros _; reflexivity|]. split; [intros _; eexists; reflexivity|].
         cbn [rdatas_struct rdatas]. split; [|split; [reflexivity|exact Logic.I]].
-        cbn [rdata_fits fval_ok]. split; [exact Nns|]. split.
+        rd_fit ltac:(idtac). cbn [rdata_fits fval_ok]. split; [exact Nns|]. split.
         { split; [solve_valid|]. split; [solve_bytes|]. left. split; [reflexivity|solve_valid]. }
         repeat (split; [split; le_c|]). exact Logic.I. }
       split; [solve_forall ltac:(reflexivity)|]. split; [cmp|]. split; [|exact Logic.I].
-      eexists _, _. split; [reflexivity|]. split; [discriminate|]. split; [reflexivity|]. split; [discriminate|].
-      split; [split; le_c|]. split; [intros HH; discriminate HH|]. split; [intros HH; discriminate HH|].
-      cbn [rdatas_struct rdatas app]. split; [cbn [rdata_fits fval_ok]; split; [exact Nns|exact Logic.I]|].
+      split; [split; le_c|]. split; [discriminate|]. split; [split; le_c|].
+      split; [intros HH; discriminate HH|]. split; [intros HH; discriminate HH|].
+      cbn [rdatas_struct rdatas app].
+      split; [rd_fit ltac:(idtac); cbn [rdata_fits fval_ok]; split; [exact Nns|exact Logic.I]|].
       split; [reflexivity|]. split; [|split; [vm_compute; reflexivity|exact Logic.I]].
-      cbn [rdata_fits fval_ok]. split; [|exact Logic.I].
+      rd_fit ltac:(idtac). cbn [rdata_fits fval_ok]. split; [|exact Logic.I].
       split; [solve_valid|]. split; [solve_bytes|]. right. split; vm_compute; reflexivity.
-    + (* www *)
+    + (* www: CNAME *)
       split; [discriminate|]. split.
       { split; [solve_valid|]. split; [solve_bytes|]. split; [reflexivity|solve_valid]. }
       cbn [rdss_struct fst snd]. split; [constructor|]. split; [cmp|]. split; [|exact Logic.I].
-      eexists _, _. split; [reflexivity|]. split; [discriminate|]. split; [reflexivity|]. split; [discriminate|].
-      split; [split; le_c|]. split; [intros HH; discriminate HH|]. split; [intros _; eexists; reflexivity|].
-      cbn [rdatas_struct rdatas]. split; [cbn [rdata_fits fval_ok]; split; [exact Nns|exact Logic.I]|].
+      split; [split; le_c|]. split; [discriminate|]. split; [split; le_c|].
+      split; [intros HH; discriminate HH|]. split; [intros _; eexists; reflexivity|].
+      cbn [rdatas_struct rdatas].
+      split; [rd_fit ltac:(idtac); cbn [rdata_fits fval_ok]; split; [exact Nns|exact Logic.I]|].
       split; [reflexivity|exact Logic.I].
-    + (* ns *)
+    + (* ns: A, TXT *)
       split; [discriminate|]. split.
       { split; [apply Vns|]. split; [apply Vns|]. split; [reflexivity|exact Vnsx]. }
       cbn [rdss_struct fst snd]. split; [constructor|]. split; [cmp|]. split.
-      { eexists _, _. split; [reflexivity|]. split; [discriminate|]. split; [reflexivity|]. split; [discriminate|].
-        split; [split; le_c|]. split; [intros HH; discriminate HH|]. split; [intros HH; discriminate HH|].
+      { split; [split; le_c|]. split; [discriminate|]. split; [split; le_c|].
+        split; [intros HH; discriminate HH|]. split; [intros HH; discriminate HH|].
         cbn [rdatas_struct rdatas app].
-        split; [cbn [rdata_fits fval_ok]; split; [split; vm_compute; reflexivity|exact Logic.I]|].
+        split; [rd_fit ltac:(idtac); cbn [rdata_fits fval_ok]; split; [split; vm_compute; reflexivity|exact Logic.I]|].
         split; [reflexivity|].
-        split; [cbn [rdata_fits fval_ok]; split; [split; vm_compute; reflexivity|exact Logic.I]|].
+        split; [rd_fit ltac:(idtac); cbn [rdata_fits fval_ok]; split; [split; vm_compute; reflexivity|exact Logic.I]|].
         split; [vm_compute; reflexivity|exact Logic.I]. }
       split; [solve_forall ltac:(reflexivity)|]. split; [cmp|]. split; [|exact Logic.I].
-      eexists _, _. split; [reflexivity|]. split; [discriminate|]. split; [reflexivity|]. split; [discriminate|].
-      split; [split; le_c|]. split; [intros HH; discriminate HH|]. split; [intros HH; discriminate HH|].
+      split; [split; le_c|]. split; [discriminate|]. split; [split; le_c|].
+      split; [intros HH; discriminate HH|]. split; [intros HH; discriminate HH|].
       cbn [rdatas_struct rdatas]. split; [|split; [reflexivity|exact Logic.I]].
-      cbn [rdata_fits]. split; [discriminate|].
+      rd_fit ltac:(idtac). cbn [rdata_fits]. split; [discriminate|].
       solve_forall ltac:(split; [solve_forall ltac:(split; le_c)|le_c]).
 Qed.
